@@ -9,6 +9,8 @@ open AikenVerif.Budget
 `res` (`none` = the script itself fails after spending `cost`). -/
 inductive Outcome where
   | stage (code : String)
+  /-- the script (of this language) is found; whether it runs is up to the later stages -/
+  | found (lang : Lang) (late : String)
   | run (lang : Lang) (cost : ExBudget) (res : Option ResultKind)
 
 /-- machine errors: `true` = out of budget, `false` = the script failed -/
@@ -21,10 +23,12 @@ def parseKind : String → Option (Option ResultKind)
   | "unit" => some (some .unit) | "true" => some (some .boolTrue) | "other" => some (some .other)
   | "fail" => some none | _ => none
 
-/-- `stage:<code>` | `run:<lang>:<cpu>:<mem>:<unit|true|other|fail>` -/
+/-- `stage:<code>` | `found:<lang>[:txinfo|decode]` | `run:<lang>:<cpu>:<mem>:<unit|true|other|fail>` -/
 def parseOutcome (s : String) : Option Outcome :=
   match s.splitOn ":" with
   | ["stage", code] => some (.stage code)
+  | ["found", l] => (parseLang l).map (.found · "")
+  | ["found", l, late] => (parseLang l).map (.found · late)
   | ["run", l, c, m, k] =>
     match parseLang l, c.toInt?, m.toInt?, parseKind k with
     | some l, some c, some m, some k => some (.run l ⟨c, m⟩ k)
@@ -49,6 +53,7 @@ def stages (cms : Option (Bool × Bool × Bool)) : Stages Outcome Outcome Unit U
       match findErr code with
       | some e => .error e
       | none => .ok ((.v3, o), none)
+    | .found lang _ => .ok ((lang, o), none)
     | .run lang _ _ => .ok ((lang, o), none)
   costModel lang :=
     match cms with
@@ -59,17 +64,19 @@ def stages (cms : Option (Bool × Bool × Bool)) : Stages Outcome Outcome Unit U
   context _ o _ :=
     match o with
     | .stage "txinfo" => .error .txInfo
+    | .found _ "txinfo" => .error .txInfo
     | _ => .ok ()
   decode o :=
     match o with
     | .stage "decode" => .error .decode
+    | .found _ "decode" => .error .decode
     | _ => .ok o
   run _ _ prog _ _ _ _ b :=
     match prog with
     | .run _ cost res =>
       if cost ≤ b then ⟨cost, match res with | some k => .ok k | none => .error false⟩
       else ⟨b, .error true⟩
-    | .stage _ => ⟨ExBudget.zero, .error false⟩
+    | _ => ⟨ExBudget.zero, .error false⟩
 
 def errClass : TxErr MErr → String
   | .missingScriptForRedeemer => "missing-script-for-redeemer"
